@@ -868,6 +868,7 @@ def wiring(repo=None):
         except Untranslatable as ex:
             failures[w] = str(ex)
     res["__failures__"] = failures
+    res["__fwd_failures__"] = dict(failures)     # wrappers for which not even <wrapper>_out can be emitted
     return res
 
 
@@ -1011,9 +1012,9 @@ def wire_one(fn, stem, path):
 
 
 def print_wiring(ir, w):
-    """composed definitions <wrapper>_out and <wrapper>_grad_<input>"""
+    """composed definitions <wrapper>_out and <wrapper>_grad_<input>; returns (text, None | reason the grads are missing)"""
     kf = ir["kernels"][w["stem"] + "_forward"]
-    kb = ir["kernels"][w["stem"] + "_backward"]
+    kb = ir["kernels"].get(w["stem"] + "_backward")
     fk = [(p, k) for p, k in kf["params"] if k != "AXIS"]
     bk = [(p, k) for p, k in kb["params"] if k != "AXIS"]
     fa = [a for a, (p, k) in zip(w["fargs"], kf["params"]) if k != "AXIS"]
@@ -1037,6 +1038,19 @@ def print_wiring(ir, w):
     fcall = " ".join([kf["name"], "sz"] + [cname(a[1]) for a in fa])
     nf = len(kf["ret"])
     fnames = ["fw%d" % i for i in range(nf)]
+    fpat = fnames[0] if nf == 1 else "'(" + ", ".join(fnames) + ")"
+    out = "(* wiring of %s:%d-%d  %s *)\n" % (WRAP_REL, w["lines"][0], w["lines"][1], w["wrapper"])
+    out += "Definition %s_out %s : %s :=\n  let %s := %s in fw0.\n" % (w["wrapper"], decl, coq_type(kf["ret"][0][1]), fpat, fcall)
+    if kb is None:
+        return out, "the backward kernel of wrapper %s was not translated" % w["wrapper"]
+    try:
+        return out + _print_wiring_grads(ir, w, kf, kb, ptype, decl, fcall, fpat, fnames, nf), None
+    except Untranslatable as ex:
+        return out, str(ex)
+
+
+def _print_wiring_grads(ir, w, kf, kb, ptype, decl, fcall, fpat, fnames, nf):
+    out = ""
     # backward arguments
     gkind = None
     bargs = []
@@ -1080,10 +1094,7 @@ def print_wiring(ir, w):
             raise Untranslatable(WRAP_REL, "%s: backward argument %s" % (w["wrapper"], a))
     if gkind is None:
         raise Untranslatable(WRAP_REL, "%s: upstream gradient not passed" % w["wrapper"])
-    fpat = fnames[0] if nf == 1 else "'(" + ", ".join(fnames) + ")"
     bcall = " ".join([kb["name"], "sz"] + bargs)
-    out = "(* wiring of %s:%d-%d  %s *)\n" % (WRAP_REL, w["lines"][0], w["lines"][1], w["wrapper"])
-    out += "Definition %s_out %s : %s :=\n  let %s := %s in fw0.\n" % (w["wrapper"], decl, coq_type(kf["ret"][0][1]), fpat, fcall)
     nb = len(kb["ret"])
     if nb != w["nb"]:
         raise Untranslatable(WRAP_REL, "%s: backward kernel returns %d values, wrapper unpacks %d" % (w["wrapper"], nb, w["nb"]))
@@ -1109,6 +1120,7 @@ Open Scope R_scope.
 
 
 def generate(repo=None):
+    repo = repo or common.REPO
     ir = translate(repo)
     w = wiring(repo)
     pr = Pr(ir)
@@ -1134,20 +1146,144 @@ def generate(repo=None):
         if name in wf:
             txt += "(* wrapper %s: NOT TRANSLATED -- %s *)\n\n" % (name, wf[name].replace("*)", "* )"))
             continue
-        if stem + "_forward" not in ir["kernels"] or stem + "_backward" not in ir["kernels"]:
-            wf[name] = "a kernel of wrapper %s was not translated" % name
+        if stem + "_forward" not in ir["kernels"]:
+            wf[name] = "the forward kernel of wrapper %s was not translated" % name
+            w["__fwd_failures__"][name] = wf[name]
             continue
         try:
-            txt += print_wiring(ir, w[name]) + "\n"
+            t, why = print_wiring(ir, w[name])
+            txt += t + "\n"
+            if why:
+                wf[name] = why          # <wrapper>_out is defined, the <wrapper>_grad_* are not
         except Untranslatable as ex:
             wf[name] = str(ex)
+            w["__fwd_failures__"][name] = str(ex)
+    # ---- nn/losses.py: Loss.__call__ reductions and the two loss modules
+    lo = loss_modules(repo)
+    w["__losses__"] = lo
+    for key in ("sum", "mean", "none"):
+        if key in lo["reduce"]:
+            op = lo["reduce"][key]
+            term, ty = {"sum": ("vsum rows l", "R"), "mean": ("vmean rows l", "R"), "id": ("l", "vec")}[op]
+            txt += "(* %s: Loss.__call__ with reduction %s *)\nDefinition loss_reduce_%s (rows : nat) (l : vec) : %s := %s.\n" % (
+                LOSS_REL, "'%s'" % key if key != "none" else "= anything else", key, ty, term)
+    for cls, wrapper in lo["modules"].items():
+        if wrapper in w and wrapper not in w["__fwd_failures__"] and wrapper in WRAPPERS and ir["kernels"].get(WRAPPERS[wrapper] + "_forward", {}).get("fibre") == "row":
+            txt += "(* %s: %s.forward = F.%s; one value per row of the (N, C) input *)\n" % (LOSS_REL, cls, wrapper)
+            txt += "Definition %s_rows (sz : nat) (y_pred : nat -> vec) (y_true : nat -> nat) : vec :=\n  fun r => %s_out sz (y_pred r) (y_true r).\n" % (cls, wrapper)
+        else:
+            lo["failures"][cls] = lo["failures"].get(cls, "its functional wrapper was not translated")
+    txt += "\n"
     return ir, w, txt
+
+
+LOSS_REL = "synapgrad/nn/losses.py"
+LOSS_CLASSES = ("NLLLoss", "CrossEntropyLoss")
+
+
+def loss_modules(repo=None):
+    """Loss.__call__: which tensor op each reduction string selects; NLLLoss / CrossEntropyLoss.forward: which functional.
+    Fail-closed per item: {"reduce": {"sum": op, "mean": op, "none": op}, "modules": {class: wrapper}, "failures": {...}}"""
+    repo = repo or common.REPO
+    path = os.path.join(repo, LOSS_REL)
+    res = {"reduce": {}, "modules": {}, "failures": {}}
+    try:
+        tree = ast.parse(open(path).read())
+    except Exception as ex:
+        res["failures"]["Loss.__call__"] = "cannot parse %s: %s" % (LOSS_REL, ex)
+        return res
+    classes = {c.name: c for c in tree.body if isinstance(c, ast.ClassDef)}
+
+    def body_of(fn):
+        return [s for s in fn.body if not (isinstance(s, ast.Expr) and isinstance(s.value, ast.Constant) and isinstance(s.value.value, str))]
+
+    def method(cls, name):
+        ms = [m for m in cls.body if isinstance(m, ast.FunctionDef) and m.name == name]
+        return ms[0] if len(ms) == 1 else None
+    try:
+        Loss = classes.get("Loss")
+        call = method(Loss, "__call__") if Loss else None
+        init = method(Loss, "__init__") if Loss else None
+        if call is None or init is None:
+            raise Untranslatable(LOSS_REL, "class Loss with __init__ and __call__ not found")
+        if not any((isinstance(s, ast.Assign) and isinstance(s.targets[0], ast.Attribute) and s.targets[0].attr == "reduction" and dump(s.targets[0].value) == pat("self") and dump(s.value) == pat("reduction")) for s in init.body):
+            raise Untranslatable(LOSS_REL, "Loss.__init__ does not store `reduction`")
+        params = [a.arg for a in call.args.args]
+        if len(params) != 3:
+            raise Untranslatable(LOSS_REL, "Loss.__call__ parameters")
+        b = body_of(call)
+        if len(b) != 3 or not (isinstance(b[0], ast.Assign) and len(b[0].targets) == 1 and isinstance(b[0].targets[0], ast.Name)
+                               and dump(b[0].value) == pat("super().__call__(%s, %s)" % (params[1], params[2]))):
+            raise Untranslatable("%s:%d" % (LOSS_REL, call.lineno), "Loss.__call__ is not `loss = super().__call__(..); if ..; return ..`")
+        L = b[0].targets[0].id
+        if not (isinstance(b[2], ast.Return) and isinstance(b[2].value, ast.Name)):
+            raise Untranslatable("%s:%d" % (LOSS_REL, call.lineno), "Loss.__call__ return")
+        V = b[2].value.id
+
+        def branch(stmts, node):
+            if len(stmts) != 1 or not (isinstance(stmts[0], ast.Assign) and len(stmts[0].targets) == 1 and isinstance(stmts[0].targets[0], ast.Name)
+                                       and stmts[0].targets[0].id == V):
+                raise Untranslatable("%s:%d" % (LOSS_REL, node.lineno), "reduction branch")
+            v = stmts[0].value
+            if dump(v) == pat("%s.sum()" % L):
+                return "sum"
+            if dump(v) == pat("%s.mean()" % L):
+                return "mean"
+            if dump(v) == pat(L):
+                return "id"
+            raise Untranslatable("%s:%d" % (LOSS_REL, v.lineno), "reduction " + dump(v))
+        node = b[1]
+        table = {}
+        while True:
+            if not isinstance(node, ast.If):
+                raise Untranslatable("%s:%d" % (LOSS_REL, call.lineno), "reduction chain")
+            t = node.test
+            if not (isinstance(t, ast.Compare) and len(t.ops) == 1 and isinstance(t.ops[0], ast.Eq) and dump(t.left) == pat("self.reduction")
+                    and isinstance(t.comparators[0], ast.Constant) and isinstance(t.comparators[0].value, str)):
+                raise Untranslatable("%s:%d" % (LOSS_REL, node.lineno), "reduction test")
+            key = t.comparators[0].value
+            if key in table:
+                raise Untranslatable("%s:%d" % (LOSS_REL, node.lineno), "duplicate reduction test")
+            table[key] = branch(node.body, node)
+            if len(node.orelse) == 1 and isinstance(node.orelse[0], ast.If):
+                node = node.orelse[0]
+                continue
+            default = branch(node.orelse, node)
+            break
+        res["reduce"] = {"sum": table.get("sum", default), "mean": table.get("mean", default), "none": table.get("none", default)}
+        extra = set(table) - {"sum", "mean", "none"}
+        if extra:
+            raise Untranslatable(LOSS_REL, "unknown reduction strings %s" % sorted(extra))
+    except Untranslatable as ex:
+        res["failures"]["Loss.__call__"] = str(ex)
+    for cname_ in LOSS_CLASSES:
+        try:
+            c = classes.get(cname_)
+            if c is None or [dump(x) for x in c.bases] != [pat("Loss")]:
+                raise Untranslatable(LOSS_REL, "class %s(Loss) not found" % cname_)
+            ms = [m for m in c.body if isinstance(m, ast.FunctionDef)]
+            if [m.name for m in ms] != ["forward"]:
+                raise Untranslatable(LOSS_REL, "%s defines methods %s" % (cname_, [m.name for m in ms]))
+            fw = ms[0]
+            ps = [a.arg for a in fw.args.args]
+            b = body_of(fw)
+            ok = len(ps) == 3 and len(b) == 1 and isinstance(b[0], ast.Return) and isinstance(b[0].value, ast.Call) \
+                and isinstance(b[0].value.func, ast.Attribute) and dump(b[0].value.func.value) == pat("F") \
+                and [dump(a) for a in b[0].value.args] == [pat(ps[1]), pat(ps[2])] and not b[0].value.keywords
+            if not ok:
+                raise Untranslatable("%s:%d" % (LOSS_REL, fw.lineno), "%s.forward is not `return F.<loss>(y_pred, y_true)`" % cname_)
+            res["modules"][cname_] = b[0].value.func.attr
+        except Untranslatable as ex:
+            res["failures"][cname_] = str(ex)
+    return res
 
 
 def all_failures(ir, w):
     """{kernel or 'wrapper:<name>': reason}"""
     d = dict(ir["failures"])
     d.update({"wrapper:" + k: v for k, v in w["__failures__"].items()})
+    d.update({"wrapper-forward:" + k: v for k, v in w["__fwd_failures__"].items()})
+    d.update({"losses:" + k: v for k, v in w.get("__losses__", {}).get("failures", {}).items()})
     return d
 
 
@@ -1158,5 +1294,5 @@ def gen():
     fails = all_failures(ir, w)
     if fails:
         raise Untranslatable(OUT_REL, "written without: " + "; ".join("%s (%s)" % kv for kv in fails.items()))
-    print("py2coq veckernels: %d kernels, %d wrappers -> %s%s" % (len(ir["kernels"]), len(w) - 1, OUT_REL, "" if changed else " (unchanged)"))
+    print("py2coq veckernels: %d kernels, %d wrappers -> %s%s" % (len(ir["kernels"]), len([k for k in w if not k.startswith("__")]), OUT_REL, "" if changed else " (unchanged)"))
     return ir, w
